@@ -12,6 +12,7 @@ import os
 from . import common
 from . import c06_real as R
 from . import c06_tables as T
+from . import c06_cov
 
 PROPERTY = 'C06'
 LEAN_TARGETS = ['CpProofs.C06', 'drv_c06']
@@ -142,6 +143,7 @@ BODIES = {
     'estatic': 'X:',
     'json': 'J:b' + H(b'aa') + ',b' + H(b'b'),
     'big': 'B:b' + H(b'x' * 700),
+    'kclose': 'K:b' + H(b'it') + ',b' + H(b'erator'),      # iterator object whose close() raises
 }
 # handlers whose value changes from invocation to invocation (length grows / shrinks / becomes empty)
 BODIES.update({
@@ -156,7 +158,8 @@ BODIES.update({
 GROWING = ['gbytes', 'gshrink', 'ggen', 'gempty', 'gtext', 'gjson', 'gstatic']
 CCS = ['-', 'maxage0', 'maxage10', 'maxage1000', 'nocache', 'pragma', 'nostore', 'badmaxage']
 DTS = [0, 0, 1, 5, 20, 700]
-ALLBYTES = {'bytes', 'empty', 'none', 'list', 'elist', 'gen', 'egen', 'file', 'efile', 'big', 'fileobj', 'efileobj'}
+ALLBYTES = {'bytes', 'empty', 'none', 'list', 'elist', 'gen', 'egen', 'file', 'efile', 'big', 'fileobj', 'efileobj',
+            'kclose'}
 TEXTY = {'text', 'latin', 'tlist', 'tgen', 'tgen2', 'gtext'}
 STATUSES = ['-', 's201', 's204', 's205', 's304', 's100', 's206', 's404', 'i',
             'e404', 'e402', 'e500', 'e410', 'r303', 'r301', 'r304', 'r305', 'r306', 'x']
@@ -237,17 +240,26 @@ def model_line(case):
     for body in case['body'].split('|'):
         if body.startswith('J:'):
             kind, chunks = R.parse_body(body)
-            from cherrypy import _json
             val = R.make_body(kind, chunks)
-            body = 'G:' + ','.join('b' + bytes(x).hex() for x in _json.encode(val))
+            try:
+                from cherrypy import _json
+                enc = [bytes(x) for x in _json.encode(val)]
+            except Exception:           # the encoder is a parameter of the model; a broken one shows as a disagreement
+                enc = []
+            body = 'G:' + ','.join('b' + x.hex() for x in enc)
+        if body.startswith('K:'):
+            body = 'G:' + body[2:]        # an iterator object is a one-shot iterator for the model
         alts.append(body)
     body = '|'.join(alts)
     reqs = []
     for r in case['reqs']:
         rg = 'N'
         if case['body'].startswith('X:') and '|' not in case['body'] and r.get('range', '-') != '-':
-            rs = R.ranges_for(case, r)
-            rg = 'N' if rs is None else ('E' if rs == [] else '/'.join('%d-%d' % p for p in rs))
+            try:
+                rs = R.ranges_for(case, r)
+                rg = 'N' if rs is None else ('E' if rs == [] else '/'.join('%d-%d' % p for p in rs))
+            except Exception:           # get_ranges (C16) is a parameter; if it breaks the request is modelled unranged
+                rg = 'N'
         inm = 'match' if r['inm'].startswith('"') else r['inm']
         im = 'match' if r['im'].startswith('"') else r['im']
         reqs.append(','.join([r['m'], r['ae'], inm, im, r['ac'], rg, r.get('cc', '-'), str(r.get('t', 0))]))
@@ -283,19 +295,33 @@ def ct_canon(ct):
     return ct.replace(' ', '').lower()
 
 
+def handler_chose(case, code):
+    """the page handler or the user hook is responsible for a body under this status: the handler / hook itself
+    set the status, or the hook assigns a new body (which it may do after the framework produced the 304)"""
+    if case.get('st') == 's%d' % code:
+        return True
+    hook = case.get('hook', '-')
+    if hook == '-':
+        return False
+    act = hook.split(':')[1]
+    return act == 's%d' % code or act.startswith('w')
+
+
 def oracle_one(case, i, o, get_twin):
     """Failures of the statement for request i of the case.  Returns [(what, signature)]."""
     bad = []
     m = case['reqs'][i]['m']
     code = o['status']
     ok, cl = cl_value(o)
+    if o.get('hang'):
+        return [('no response within %d s (the request hangs)' % R.REQUEST_TIMEOUT, 'hang')]
     if code is None:
-        return [('no response status at the WSGI boundary', 'no_status')]
+        return [('no (parsable) response status at the WSGI boundary', 'no_status')]
     if not ok:
         return [('malformed or contradictory Content-Length headers %r' % (o['cl'],), 'malformed_cl')]
-    if o['stream'] is None:
-        raise common.HarnessError('stream flag was not recorded for %s' % json.dumps(case))
-    if not o['stream']:
+    # (a response whose stream flag could not be observed is held to the streamed clauses only: they demand less)
+    streamed = o['stream'] is None or o['stream']
+    if not streamed:
         if NOBODY(code):
             if cl is not None or o['delivered'] != 0:
                 bad.append(('non-streamed %d response carries Content-Length=%r and %d body bytes'
@@ -321,6 +347,12 @@ def oracle_one(case, i, o, get_twin):
                 sig = 'C06-F1:own_cl_text_body_streaming_encode'
             bad.append(('streamed %d response: Content-Length=%d but %d bytes produced%s'
                         % (code, cl, o['delivered'], ' (aborted: %s)' % o['aborted'] if o['aborted'] else ''), sig))
+        if NOBODY(code) and m != 'HEAD' and not handler_chose(case, code) and (o['delivered'] != 0 or cl is not None):
+            # "1xx, 204, 205 and 304 responses carry neither body bytes nor Content-Length": for a streamed
+            # response this is demanded only when the framework itself produced that status (a conditional
+            # request answered 304, an HTTPRedirect(304)); a handler that picks 204 and streams a body is not
+            bad.append(('streamed %d response produced by the framework carries Content-Length=%r and %d body bytes'
+                        % (code, cl, o['delivered']), 'stream_nobody_status_framed'))
     if m == 'HEAD':
         # the GET's status line and headers as the application first committed to them: a producer that
         # fails during body iteration (after that point) is the handler's failure, and HEAD cannot see it
@@ -352,8 +384,10 @@ def canon_impl(o):
                 cs = CSMAP.get(p[8:].lower(), '?')
         cts = base + '/' + cs
     e = 'clean' if not o['aborted'] else ('nonbytes' if o['aborted'] == 'nonbytes' else 'raised')
+    if o.get('status') is None:
+        return {'S': None, 'CL': 'N', 'D': o['delivered'], 'E': e, 'ST': -1, 'CA': 0, 'CE': 0, 'CT': 'N'}
     return {'S': o['status'], 'CL': 'N' if cl is None else cl, 'D': o['delivered'], 'E': e,
-            'ST': int(bool(o['stream'])), 'CA': int(bool(o['cached'])), 'CE': int(o['ce'] == 'gzip'), 'CT': cts}
+            'ST': -1 if o['stream'] is None else int(bool(o['stream'])), 'CA': int(bool(o['cached'])), 'CE': int(o['ce'] == 'gzip'), 'CT': cts}
 
 
 def canon_model(rec):
@@ -405,7 +439,13 @@ def eval_case(case):
 
 
 def eval_chunk(cases):
-    return [eval_case(c) for c in cases]
+    """-> ([(obs, oracle failures, model line)], lines of the anchored functions executed in this process)"""
+    c06_cov.ensure()
+    out = [eval_case(c) for c in cases]
+    return out, c06_cov.take_hits()
+
+
+_HITS = set()
 
 
 def nontrivial(case):
@@ -472,9 +512,13 @@ def process(ctx, cases, compare_model=True, procs=1):
     if procs > 1 and len(cases) > 200:
         n = max(1, len(cases) // (procs * 4))
         chunks = [cases[i:i + n] for i in range(0, len(cases), n)]
-        results = [r for part in common.parallel_map(eval_chunk, chunks, procs) for r in part]
+        results = []
+        for part, hits in common.parallel_map(eval_chunk, chunks, procs):
+            results += part
+            _HITS.update(tuple(h) for h in hits)
     else:
-        results = eval_chunk(cases)
+        results, hits = eval_chunk(cases)
+        _HITS.update(tuple(h) for h in hits)
     lines = [r[2] for r in results]
     model = ctx.model(lines) if compare_model else None
     for idx, (case, (obs, bad, line)) in enumerate(zip(cases, results)):
@@ -491,7 +535,8 @@ def process(ctx, cases, compare_model=True, procs=1):
         if case.get('hook', '-') != '-':
             ctx.count('hook:' + case['hook'].split(':')[1][:1] + '@' + case['hook'].split(':')[0])
         for o in obs:
-            ctx.count('resp:%s' % (o['status'] if o['status'] in KEY_CODES else '%dxx' % (o['status'] // 100)))
+            ctx.count('resp:%s' % (o['status'] if (o['status'] in KEY_CODES or o['status'] is None)
+                                   else '%dxx' % (o['status'] // 100)))
             ctx.count('framing:' + ('stream' if o['stream'] else 'buffered') + '/' +
                       ('cl' if o['cl'] else 'nocl') + ('/aborted' if o['aborted'] else ''))
             if o['cached']:
@@ -739,6 +784,19 @@ def run(ctx):
         process(ctx, regen, procs=procs)
         ctx.extra['exhaustive_regeneration_lattice'] = len(regen)
     ctx.extra['systematic_block'] = len(sysq)
+    report_coverage(ctx)
+
+
+def report_coverage(ctx):
+    """which lines of the anchored functions the whole run (all worker processes) executed"""
+    try:
+        cov = c06_cov.Coverage()
+        cov.add_hits(_HITS)
+        cov.report(ctx)
+    except Exception as e:          # introspection of a changed tree failed: evidence only, never a verdict
+        ctx.note('coverage report failed: %r' % (e,))
+    finally:
+        c06_cov.stop()
 
 
 def status_sweep():
